@@ -657,6 +657,115 @@ func c16decode(js string) (map[string]interface{}, error) {
 	return v, err
 }
 
+// directed cases: a where filters the entries of the list it is put on - not a list of the same name further down,
+// not a list with its own when
+func c16probes(c *core.Ctx) {
+	m, err := parser.LoadModuleFromString(nil, `module pw { namespace "urn:pw"; prefix pw; revision 2020-01-01;
+  list part { key id; leaf id { type string; } leaf qty { type int32; }
+    list part { key id; leaf id { type string; } leaf qty { type int32; } }
+    list sub { key id; when "qty>0"; leaf id { type string; } leaf qty { type int32; } } }
+  container box { list part { key id; leaf id { type string; } leaf tag { type string; } } }
+}`)
+	if err != nil {
+		c.Violation(core.Replay{Kind: "harness", Summary: "C16 probe module: " + err.Error(), NoInputFound: true})
+		return
+	}
+	doc := `{"part":[{"id":"a","qty":10,"part":[{"id":"a1","qty":1},{"id":"a2","qty":20}],"sub":[{"id":"s1","qty":1},{"id":"s2","qty":0},{"id":"s3","qty":9}]},` +
+		`{"id":"b","qty":3,"part":[{"id":"b1","qty":50}]},{"id":"c","qty":6,"part":[{"id":"c1","qty":2}],"sub":[{"id":"s4","qty":-1}]}],"box":{"part":[{"id":"x","tag":"t"}]}}`
+	for _, tc := range []struct{ path, want string }{
+		{"part?where=qty>5", `{"part":[{"id":"a","qty":10,"part":[{"id":"a1","qty":1},{"id":"a2","qty":20}],"sub":[{"id":"s1","qty":1},{"id":"s3","qty":9}]},{"id":"c","qty":6,"part":[{"id":"c1","qty":2}],"sub":[]}]}`},
+		{"part?where=qty<5", `{"part":[{"id":"b","qty":3,"part":[{"id":"b1","qty":50}]}]}`},
+		{"part=a/part?where=qty>5", `{"part":[{"id":"a2","qty":20}]}`},
+		{"part=a/sub?where=qty>5", `{"sub":[{"id":"s3","qty":9}]}`},
+		{"part=a/sub?where=qty<5", `{"sub":[{"id":"s1","qty":1}]}`},
+		{"part?where=id='c'", `{"part":[{"id":"c","qty":6,"part":[{"id":"c1","qty":2}],"sub":[]}]}`},
+	} {
+		c.Evaluations++
+		c.Count("probe", tc.path)
+		var got string
+		perr := safeDo(func() error {
+			n, err := nodeutil.ReadJSON(doc)
+			if err != nil {
+				return err
+			}
+			sel, err := node.NewBrowser(m, n).Root().Find(tc.path)
+			if err != nil || sel == nil {
+				return fmt.Errorf("no selection: %v", err)
+			}
+			got, err = nodeutil.WriteJSON(sel)
+			return err
+		})
+		if perr != nil || got != tc.want {
+			c.Violation(core.Replay{Kind: "property-failure", Class: "probe-where-nested", Summary: fmt.Sprintf("Find(%q) reads %s (%v); where keeps exactly %s", tc.path, short(got), perr, short(tc.want)),
+				Input: map[string]interface{}{"document": doc, "find": tc.path}, Impl: got, Spec: tc.want})
+		}
+	}
+}
+
+// a conditional leaf addressed directly (Find(leaf) then Get / SetValue) behaves as it does through its container
+func c16leafProbes(c *core.Ctx) {
+	m, err := parser.LoadModuleFromString(nil, `module lw { namespace "urn:lw"; prefix lw; revision 2020-01-01;
+  leaf on { type boolean; } leaf w { when "on = 'true'"; type string; }
+  container c { leaf p { type int32; } leaf q { when "p>5"; type string; } list l { key k; leaf k { type string; } leaf n { type int32; } leaf z { when "n<0"; type string; } } }
+}`)
+	if err != nil {
+		c.Violation(core.Replay{Kind: "harness", Summary: "C16 leaf probe module: " + err.Error(), NoInputFound: true})
+		return
+	}
+	for _, tc := range []struct {
+		data map[string]interface{}
+		path string
+		vis  bool
+	}{
+		{map[string]interface{}{"on": true, "w": "x"}, "w", true},
+		{map[string]interface{}{"on": false, "w": "x"}, "w", false},
+		{map[string]interface{}{"w": "x"}, "w", false},
+		{map[string]interface{}{"c": map[string]interface{}{"p": 9, "q": "v"}}, "c/q", true},
+		{map[string]interface{}{"c": map[string]interface{}{"p": 5, "q": "v"}}, "c/q", false},
+		{map[string]interface{}{"c": map[string]interface{}{"l": []interface{}{map[string]interface{}{"k": "a", "n": -1, "z": "v"}}}}, "c/l=a/z", true},
+		{map[string]interface{}{"c": map[string]interface{}{"l": []interface{}{map[string]interface{}{"k": "a", "n": 1, "z": "v"}}}}, "c/l=a/z", false},
+	} {
+		c.Evaluations++
+		c.Count("probe", "leaf "+tc.path)
+		var got, setRes string
+		perr := safeDo(func() error {
+			b := node.NewBrowser(m, nodeutil.ReflectChild(tc.data))
+			s, err := b.Root().Find(tc.path)
+			if err != nil || s == nil {
+				got = fmt.Sprintf("no selection (%v)", err)
+				return nil
+			}
+			v, err := s.Get()
+			switch {
+			case err != nil:
+				got = "error " + err.Error()
+			case v == nil:
+				got = "hidden"
+			default:
+				got = "value " + v.String()
+			}
+			if err := s.SetValue("new"); err != nil {
+				setRes = "error " + err.Error()
+			} else {
+				js, _ := nodeutil.WriteJSON(b.Root())
+				setRes = map[bool]string{true: "written", false: "not written"}[strings.Contains(js, `"new"`)]
+			}
+			return nil
+		})
+		want, wantSet := "hidden", "not written"
+		if tc.vis {
+			want, wantSet = "value "+map[string]string{"w": "x"}[tc.path], "written"
+			if tc.path != "w" {
+				want = "value v"
+			}
+		}
+		if perr != nil || got != want || (setRes != wantSet && !strings.HasPrefix(setRes, "error")) {
+			c.Violation(core.Replay{Kind: "property-failure", Class: "probe-leaf-when", Summary: fmt.Sprintf("Find(%q) on %v: Get gives %s, SetValue %s (%v); the condition is %v, so: %s, %s", tc.path, tc.data, got, setRes, perr, tc.vis, want, wantSet),
+				Input: map[string]interface{}{"data": fmt.Sprint(tc.data), "path": tc.path}})
+		}
+	}
+}
+
 func C16(c *core.Ctx) {
 	c.Rule = "generated modules placing 'when' on leaves (sibling, nested-path and through-a-list operands), containers and lists (own operands, per entry), on uses (leaf, container with and without a condition of its own, list) and on augments; operands of every integer type incl. 64-bit extremes, decimal64, string, boolean, enumeration; all six operators and plain existence paths; data with the operand unset, at and one step around the literal, at the type's extremes; (i) read (WriteJSON) from the JSON reader and from reflection over typed maps compared with the Lean model, (ii) ?where= on lists and ?filter= on a notification stream compared with the model's filter, (iii) upsert of a conditional leaf / of a leaf inside a conditional container into a reflection store: written iff the model says the conditions hold, nothing else changed. non-trivial = read where ≥1 condition is false and ≥1 true; distinct by (module, tree, source)"
 	c.Assumptions = append(c.Assumptions,
@@ -667,6 +776,8 @@ func C16(c *core.Ctx) {
 	if c.Thorough() {
 		c.LeanChecker("YangVerif.Props.C16")
 	}
+	c16probes(c)
+	c16leafProbes(c)
 	rng := core.NewRng(c.Seed)
 	var lines []string
 	type pend struct {
